@@ -541,6 +541,24 @@ func init() { //nolint:gochecknoinits
 			for i := 0; i < ns; i++ {
 				sp := vfGenPRSpec("C11", i, seed^0x1111)
 				sp.ID = fmt.Sprintf("C11-sim-%d", i)
+				if i%3 == 2 {
+					// interleaving, unordered partially reliable multi-fragment messages over a reordering and
+					// duplicating link: fragments of abandoned messages arrive after the I-FORWARD-TSN that skipped them
+					r := vfNewRand(vfHash(seed, uint64(i), 0x1a7e))
+					sp.A.IL, sp.B.IL = true, true
+					for k := range sp.Streams {
+						sp.Streams[k].Unordered = true
+						sp.Streams[k].RelType, sp.Streams[k].RelVal = ReliabilityTypeRexmit, uint32(r.Pick(0, 0, 1)) //nolint:gosec
+						sp.Streams[k].SizeMode = []string{"mixed", "boundary", "big"}[r.Intn(3)]
+						sp.Streams[k].DCEPEvery = 0
+						sp.Streams[k].Mix = false
+					}
+					sp.Link.LossPm, sp.Link.DataLossPm, sp.Link.BurstPm = r.Pick(50, 100, 200), 0, 0
+					sp.Link.DupPm = r.Pick(30, 100)
+					sp.Link.JitterUs = sp.Link.DelayUs * int64(r.Pick(2, 4, 8))
+					sp.A.MaxMsg = vfEffMaxMsg(&sp.A, &sp.B, len(sp.Streams), true)
+					sp.B.MaxMsg = vfEffMaxMsg(&sp.B, &sp.A, len(sp.Streams), true)
+				}
 				out = append(out, sp)
 			}
 
